@@ -186,9 +186,10 @@ def main():
         rc = 0
         for pid in pids:
             te = None
+            tbroken = 0
             if a.tier == "thorough" and not a.facts:
                 from rules import thorough
-                te, tlines, tviol = thorough.run_for(pid, prog)
+                te, tlines, tviol, tbroken = thorough.run_for(pid, prog)
             else:
                 tlines, tviol = [], 0
             lines, nv, per_rule = check_property(pid, prog, meta, a.tier, cache, extra, time.time() if a.prop == "all" else t0, te)
@@ -198,6 +199,8 @@ def main():
             print("%s: %s  [%s]" % (pid, "VIOLATED" if (nv or tviol) else "held", summ))
             if nv or tviol:
                 rc = 1
+            elif tbroken and rc == 0:
+                rc = 2
         return rc
     except CheckerError as e:
         print("CHECKER-ERROR: %s" % e)
@@ -215,6 +218,14 @@ def replay(a):
     f, meta = facts.run_driver()
     prog = mir.Program(f, meta)
     rid = want["rule"]
+    if rid == "IM-witness":
+        from rules import thorough
+        ok, c = thorough.run_witnesses()
+        print(json.dumps(c, indent=1))
+        if any("compile fail" in l for l in c.get("witness_failed", [])):
+            print("VIOLATION property=%s replay=%s" % (pid, a.replay))
+            return 1
+        return 0
     res = RULES[rid]["run"](prog)
     hit = [r for r in res if r["key"] == want["key"]]
     if not hit:
